@@ -3,7 +3,7 @@ import numpy as np
 from harness import core, gens
 from harness.core import q, qlist, natlist, zlist, cbool, Case, guarded, ImplError
 
-RULE = ('exhaustive: every series over {-2..2} up to length 6 (quick) / 8 (thorough) and {-3..3} up to 4 / 6, for zero crossings (keep_adj_zeros in {T,F}; tol in {1/2, 1, 2} up to length 4 / 6) '
+RULE = ('exhaustive: every series over {-2..2} up to length 6 (quick) / 7 (thorough) and {-3..3} up to 4 / 5, for zero crossings (keep_adj_zeros in {T,F}; tol in {1/2, 1, 2} up to length 4 / 6) '
         'and switched peaks (tol in {0, 1/2, 1, 2}; all-zero series excluded); random excursion series (>=3 levels per excursion, zero runs) up to length 300 / 3000, scaled copies (2^-30, 2^20) and real-valued series; '
         'tolerances placed exactly on sample magnitudes; the subsequence clause (tol>0 result inside tol=0 result) is evaluated on the implementation outputs themselves; indices compared exactly; '
         'non-trivial = series contains a strict sign change or an exact zero')
@@ -58,7 +58,7 @@ def run(rep, rng, tier):
         subs.append(Case('(%s, %s)' % (natlist(o_tol), natlist(o_0)), {'function': site, 'args': {'values': list(map(float, xs)), 'tol': tol},
                          'impl': {'tol': o_tol, 'tol0': o_0}}, site, nontrivial=nontrivial(xs), klass=site))
 
-    L2, L3 = (6, 4) if tier == 'quick' else (8, 6)
+    L2, L3 = (6, 4) if tier == 'quick' else (7, 5)     # (8, 6) = 3.1M cases took 66 min; (7, 5) keeps the thorough tier near 15 min
 
     def all_both():
         seen = set()
